@@ -1,3 +1,5 @@
+import DSV.Proofs.Skeleton
+import DSV.Generated.Skeleton
 import DSV.Proofs.Create
 /-!
 C18 — creating a table is idempotent and race-safe.
@@ -48,3 +50,16 @@ theorem opener_window_without_exclusion :
 example : resolve (init [⟨0, 7, 0⟩, ⟨1, 7, 1⟩] none fun _ => true) = some ⟨1, 7, 1⟩ := by decide
 
 end DSV.Create
+
+/-! ## Tie to the current source: the step order of `MetadataManager.initialize_table` -/
+namespace DSV.Src.C18
+open DSV.Skel DSV.Generated.Skel
+
+/-- **source_initialize_order** — in the CURRENT source: lock, existence check (refusing an existing table), initial
+metadata file, create-if-absent pointer write on CAS backends (a lost race discards the file and refuses), plain pointer
+write otherwise, release. -/
+theorem source_initialize_order :
+    project createVoc mmInitialize = ["acquire", "check", "exists", "writeMeta", "flipIfAbsent", "discard", "exists",
+                                      "flip", "release"] := by decide
+
+end DSV.Src.C18
